@@ -15,13 +15,6 @@ import (
 
 func q(s string) string { return strconv.Quote(s) }
 
-func numStr(v string, isInt bool) string {
-	if isInt {
-		return v + ",int"
-	}
-	return v + ",num"
-}
-
 // printList mirrors cssn.List with Options{KeepComments: keep, ErrorFlags: true}.
 func printList(sb *strings.Builder, l []*node, keep bool) {
 	for _, n := range l {
@@ -39,44 +32,64 @@ func listStr(l []*node, keep bool) string {
 	return sb.String()
 }
 
+func wq(sb *strings.Builder, pre, v, post string) {
+	var buf [64]byte
+	sb.WriteString(pre)
+	sb.Write(strconv.AppendQuote(buf[:0], v))
+	sb.WriteString(post)
+}
+
+func wnum(sb *strings.Builder, pre, repr string, isInt bool) {
+	sb.WriteString(pre)
+	sb.WriteString(repr)
+	if isInt {
+		sb.WriteString(",int")
+	} else {
+		sb.WriteString(",num")
+	}
+}
+
 func printOne(sb *strings.Builder, n *node, keep bool) {
 	switch n.k {
 	case nComment:
-		sb.WriteString("comment(" + q(n.val) + ")")
+		wq(sb, "comment(", n.val, ")")
 	case nWS:
 		sb.WriteString("ws")
 	case nLit:
-		sb.WriteString("lit(" + q(n.val) + ")")
+		wq(sb, "lit(", n.val, ")")
 	case nIdent:
-		sb.WriteString("ident(" + q(n.val) + ")")
+		wq(sb, "ident(", n.val, ")")
 	case nAt:
-		sb.WriteString("at(" + q(n.val) + ")")
+		wq(sb, "at(", n.val, ")")
 	case nHash:
-		f := "unrestricted"
 		if n.id {
-			f = "id"
+			wq(sb, "hash(", n.val, ",id)")
+		} else {
+			wq(sb, "hash(", n.val, ",unrestricted)")
 		}
-		sb.WriteString("hash(" + q(n.val) + "," + f + ")")
 	case nString:
-		sb.WriteString("string(" + q(n.val))
 		if n.eof {
-			sb.WriteString(",eof")
+			wq(sb, "string(", n.val, ",eof)")
+		} else {
+			wq(sb, "string(", n.val, ")")
 		}
-		sb.WriteString(")")
 	case nURL:
-		sb.WriteString("url(" + q(n.val))
 		if n.eof {
-			sb.WriteString(",eof")
+			wq(sb, "url(", n.val, ",eof)")
+		} else {
+			wq(sb, "url(", n.val, ")")
 		}
-		sb.WriteString(")")
 	case nURange:
 		fmt.Fprintf(sb, "urange(%x-%x)", n.lo, n.hi)
 	case nNumber:
-		sb.WriteString("number(" + numStr(n.repr, n.isInt) + ")")
+		wnum(sb, "number(", n.repr, n.isInt)
+		sb.WriteString(")")
 	case nPercentage:
-		sb.WriteString("percentage(" + numStr(n.repr, n.isInt) + ")")
+		wnum(sb, "percentage(", n.repr, n.isInt)
+		sb.WriteString(")")
 	case nDimension:
-		sb.WriteString("dimension(" + numStr(n.repr, n.isInt) + "," + q(n.unit) + ")")
+		wnum(sb, "dimension(", n.repr, n.isInt)
+		wq(sb, ",", n.unit, ")")
 	case nParen:
 		sb.WriteString("(")
 		printList(sb, n.args, keep)
@@ -90,11 +103,13 @@ func printOne(sb *strings.Builder, n *node, keep bool) {
 		printList(sb, n.args, keep)
 		sb.WriteString("}")
 	case nFunc:
-		sb.WriteString("fn(" + q(n.val) + ")(")
+		wq(sb, "fn(", n.val, ")(")
 		printList(sb, n.args, keep)
 		sb.WriteString(")")
 	case nError:
-		sb.WriteString("error(" + string(rune(n.errk)) + ")")
+		sb.WriteString("error(")
+		sb.WriteByte(n.errk)
+		sb.WriteString(")")
 	}
 }
 
@@ -104,28 +119,40 @@ func itemsStr(l []item, keep bool) string {
 	for _, it := range l {
 		switch it.k {
 		case iQRule:
-			sb.WriteString("qrule[" + listStr(it.prelude, keep) + "]{" + listStr(it.content, keep) + "}")
+			sb.WriteString("qrule[")
+			printList(&sb, it.prelude, keep)
+			sb.WriteString("]{")
+			printList(&sb, it.content, keep)
+			sb.WriteString("}")
 		case iAtRule:
-			sb.WriteString("atrule(" + q(it.name) + ")[" + listStr(it.prelude, keep) + "]")
+			wq(&sb, "atrule(", it.name, ")[")
+			printList(&sb, it.prelude, keep)
+			sb.WriteString("]")
 			if !it.hasBlock {
 				sb.WriteString(";")
 			} else {
-				sb.WriteString("{" + listStr(it.content, keep) + "}")
+				sb.WriteString("{")
+				printList(&sb, it.content, keep)
+				sb.WriteString("}")
 			}
 		case iDecl:
-			sb.WriteString("decl(" + q(it.name) + ")[" + listStr(it.value, keep) + "]")
+			wq(&sb, "decl(", it.name, ")[")
+			printList(&sb, it.value, keep)
+			sb.WriteString("]")
 			if it.important {
 				sb.WriteString("!")
 			}
 		case iError:
-			sb.WriteString("error(" + string(rune(it.errk)) + ")")
+			sb.WriteString("error(")
+			sb.WriteByte(it.errk)
+			sb.WriteString(")")
 		case iWS:
 			sb.WriteString("ws")
 		case iComment:
 			if !keep {
 				continue
 			}
-			sb.WriteString("comment(" + q(it.name) + ")")
+			wq(&sb, "comment(", it.name, ")")
 		}
 		sb.WriteByte('\n')
 	}
